@@ -27,12 +27,17 @@ use crate::error::Error;
 use super::{ExprType, FlagsState, GeneratorState};
 
 impl<'a> GeneratorState<'a> {
-    fn purge_deferred_plusplus_and_savey(&mut self) -> Result<(), Error> {
+    fn purge_deferred_plusplus(&mut self) -> Result<(), Error> {
         let def = self.deferred_plusplus.clone();
         self.deferred_plusplus.clear();
         for d in def {
             self.generate_plusplus(&d.0, d.1, d.2)?;
         }
+        Ok(())
+    }
+
+    fn purge_deferred_plusplus_and_savey(&mut self) -> Result<(), Error> {
+        self.purge_deferred_plusplus()?;
 
         if self.saved_y {
             self.asm_restore_y();
@@ -189,6 +194,10 @@ impl<'a> GeneratorState<'a> {
                                         ));
                                     }
                                 }
+
+                                // The arguments are evaluated: their pending ++/-- take effect
+                                // before the function is entered
+                                self.purge_deferred_plusplus()?;
 
                                 debug!("Function call from bank #{}; {}", self.current_bank, var);
                                 if f.interrupt {
